@@ -613,6 +613,28 @@ func (c *Ctx) onlyCalledFrom(g *ssa.Function, allowed func(*ssa.Function) bool) 
 				callers[h] = append(callers[h], top)
 			}
 		}
+		// a method value / function value handed on as a callback (index.Ascend(sweep.visit)): the function that forms
+		// the value counts as the caller
+		for _, b := range fn.Blocks {
+			for _, in := range b.Instrs {
+				for _, op := range in.Operands(nil) {
+					if op == nil || *op == nil {
+						continue
+					}
+					if _, isMC := (*op).(*ssa.MakeClosure); !isMC {
+						if _, isFn := (*op).(*ssa.Function); !isFn {
+							continue
+						}
+					}
+					if ci, isCall := in.(ssa.CallInstruction); isCall && ci.Common().Value == *op {
+						continue
+					}
+					if h := core.FuncValueTarget(*op); h != nil && h.Parent() == nil {
+						callers[h] = append(callers[h], top)
+					}
+				}
+			}
+		}
 	}
 	var ok func(f *ssa.Function, d int) bool
 	ok = func(f *ssa.Function, d int) bool {
